@@ -30,13 +30,14 @@ type Ctx struct {
 	Replay   string // --replay file
 	ChildBin string // binary used for child processes (default: this executable)
 
-	mu          sync.Mutex
-	violations  []Finding
-	known       []Finding
-	inconcl     []string
-	knownFile   []KnownEntry
-	printedKnow map[string]bool
-	transcripts []transcriptRec
+	mu           sync.Mutex
+	violations   []Finding
+	known        []Finding
+	inconcl      []string
+	knownFile    []KnownEntry
+	printedKnow  map[string]bool
+	transcripts  []transcriptRec
+	retryExpired int
 }
 
 type transcriptRec struct{ base, hash, file string }
@@ -222,11 +223,19 @@ type ChildResult struct {
 // finished when the child died is the witness of a crash.
 func (c *Ctx) RunChild(mode string, args any, timeout time.Duration, extraEnv ...string) *ChildResult {
 	res := c.runChildOnce(mode, args, timeout, extraEnv...)
-	if res.TimedOut {
+	c.mu.Lock()
+	giveUp := c.retryExpired >= 2 // retries that expired again: this is not load, something really hangs
+	c.mu.Unlock()
+	if res.TimedOut && !giveUp {
 		// the wall-clock watchdog is not a verdict: on a loaded machine a healthy batch can exceed it.
 		// One more attempt with three times the budget; a second expiry is reported by the caller as inconclusive.
 		fmt.Printf("note: watchdog (%v) expired in child mode %s (last line: %s); retrying once with %v\n", timeout, mode, res.LastLine, 3*timeout)
 		res = c.runChildOnce(mode, args, 3*timeout, extraEnv...)
+		if res.TimedOut {
+			c.mu.Lock()
+			c.retryExpired++
+			c.mu.Unlock()
+		}
 	}
 	return res
 }
